@@ -448,13 +448,14 @@ def _fold_sites(P, key):
     An update site is `best = candidate` guarded by P::is_better(best, candidate), or a call of a private helper doing exactly that."""
     body = P.body(key)
     name_of = lambda i: body["locals"][i].get("n")
-    score_locals = set()
+    score_locals, score_idx = set(), set()      # by name (for descriptions) and by local index (another binding may reuse the name)
     for blk in body["blocks"]:
         for s in blk["s"]:
             if s["k"] == "assign" and name_of(s["p"]["l"]) and not s["p"]["pj"] and body["locals"][s["p"]["l"]]["ty"] == SCORE:
                 d = k2.describe_def(P, body, "stmt", s)
                 if d[0] == "uneval" and d[1] == "<P as chess_engine::Policy>::WORST_SCORE":
                     score_locals.add(name_of(s["p"]["l"]))
+                    score_idx.add(s["p"]["l"])
     ab = P.find_fn("Engine::alphabeta", "chess_engine")
     cand_locals = set()
     for i, l in enumerate(body["locals"]):
@@ -463,7 +464,7 @@ def _fold_sites(P, key):
     good, stray = [], []
     for bi, blk in enumerate(body["blocks"]):
         for s in blk["s"]:
-            if s["k"] == "assign" and name_of(s["p"]["l"]) in score_locals and not s["p"]["pj"]:
+            if s["k"] == "assign" and s["p"]["l"] in score_idx and not s["p"]["pj"]:
                 d = k2.describe_def(P, body, "stmt", s)
                 if d[0] == "uneval":
                     continue
